@@ -429,6 +429,39 @@ type walkInfo struct {
 	Callback *ssa.Function
 	Closure  []*ssa.Function
 	Wrapper  *ssa.Function // bound-method wrapper handed to ast.Inspect when the callback is a method value
+	Visitor  bool          // ast.Walk with a visitor: Callback is its Visit method (receiver, node) -> ast.Visitor
+}
+
+func visitorWalksOf(P *Program) map[*ssa.Function][]*ssa.Call {
+	P.buildVisitorWalks()
+	return P.visitorWalks
+}
+
+// walkContinues: what a result of the walk callback means: descend (true) / prune (false); known: it is a constant
+// answer. For a visitor: returning the visitor itself descends, returning nil prunes, anything else hands the
+// subtree to another visitor (not known).
+func (c *Ctx) walkContinues(w *walkInfo, v ssa.Value) (cont bool, known bool) {
+	if !w.Visitor {
+		return constBool(v)
+	}
+	for {
+		if mi, ok := v.(*ssa.MakeInterface); ok {
+			v = mi.X
+			continue
+		}
+		if ci, ok := v.(*ssa.ChangeInterface); ok {
+			v = ci.X
+			continue
+		}
+		break
+	}
+	if cs, ok := v.(*ssa.Const); ok && cs.IsNil() {
+		return false, true
+	}
+	if len(w.Callback.Params) > 0 && v == ssa.Value(w.Callback.Params[0]) {
+		return true, true
+	}
+	return false, false
 }
 
 func (c *Ctx) walks() []*walkInfo {
@@ -443,6 +476,20 @@ func (c *Ctx) walks() []*walkInfo {
 				return
 			}
 			callee := call.Call.StaticCallee()
+			if callee != nil && FuncName(callee) == "go/ast.Walk" && len(call.Call.Args) == 2 {
+				// ast.Walk(visitor, root): the callback is the visitor's Visit method
+				w := &walkInfo{Call: call, Root: call.Call.Args[1], Visitor: true}
+				for m, ws := range visitorWalksOf(P) {
+					if len(ws) == 1 && ws[0] == call {
+						w.Callback = m
+					}
+				}
+				if w.Callback != nil {
+					w.Closure = P.StaticClosure(w.Callback)
+				}
+				c.walkCache = append(c.walkCache, w)
+				return
+			}
 			if callee == nil || FuncName(callee) != "go/ast.Inspect" {
 				return
 			}
@@ -531,6 +578,9 @@ func (c *Ctx) roleOf(r ssa.Value, depth int) string {
 	case *ssa.Parameter:
 		if closureLike(x.Parent()) {
 			return "node"
+		}
+		if w := c.P.visitorWalk(x.Parent()); w != nil && len(x.Parent().Params) == 2 && x.Parent().Params[1] == x {
+			return "node" // node parameter of the Visit method of a visitor handed to ast.Walk
 		}
 		for _, w := range c.walks() {
 			if w.Wrapper != nil && w.Callback == x.Parent() && len(w.Callback.Params) == 2 && w.Callback.Params[1] == x {
